@@ -1192,6 +1192,8 @@ impl Driver {
             self.result.stats.inc(match armed.unwrap().0 {
                 crate::types::SITE_CLONE => "faults_fired_in_value_clone",
                 crate::types::SITE_WEIGHER => "faults_fired_in_weigher",
+                crate::types::SITE_EQ => "faults_fired_in_key_eq",
+                crate::types::SITE_HASH => "faults_fired_in_key_hash",
                 _ => "faults_fired_in_predicate",
             });
             self.result.stats.nontrivial.insert("C08");
